@@ -294,7 +294,7 @@ static void do_reads(LHAReader *rd, model *m, const size_t *sizes, int n, int un
 				vf_viol("c15-read-bytes", "entry %d (%s): read(%zu) at offset %zu returned %zu bytes, expected %zu (or content differs)", m->cur, x->method, ask, m->readpos, got, exp);
 		}
 		m->readpos += got;
-		if (got == 0) return;
+		if (got == 0 && ask > 0) return;
 	}
 }
 
@@ -369,7 +369,7 @@ static void execute(const ab_arc *a, int ai, int policy, vf_enum *e, const run_o
 		case A_R7: { size_t s[1] = { 7 }; do_reads(rd, &m, s, 1, 0); break; }
 		case A_R4096: { size_t s[1] = { 4096 }; do_reads(rd, &m, s, 1, 0); break; }
 		case A_R1_4096: { size_t s[2] = { 1, 4096 }; do_reads(rd, &m, s, 2, 0); break; }
-		case A_R7_7: { size_t s[2] = { 7, 7 }; do_reads(rd, &m, s, 2, 0); break; }
+		case A_R7_7: { size_t s[4] = { 0, 7, 0, 7 }; do_reads(rd, &m, s, 4, 0); break; }      /* with zero-length requests in between */
 		case A_RALL: { size_t s[1] = { 4096 }; do_reads(rd, &m, s, 1, 1); break; }
 		case A_CHECK: {
 			int v = lha_reader_check(rd, NULL, NULL), exp;
